@@ -99,6 +99,15 @@ def make_worlds(numpy, regions, quick, rng):
         boxes5 = {q: tuple(float(x) for x in qt3.bounds[q]) for q in range(qt3.num_nodes)}
         worlds.append(World('quadtree-z3/explicit 5.95:8.95', qt3, boxes5, [(0.0, 86.0)], mags_a, False,
                             cells={1: 0, 2: 63}, bins={1: 0, 2: 7}, quad=True))
+    # W6: a magnitude grid whose edges need three decimals (step 1/8), bound to a region after construction with the shared
+    # helper (the way GriddedForecast binds its magnitudes)
+    from csep.core.regions import create_space_magnitude_region
+    mags_d = numpy.array([4.125 + 0.125 * i for i in range(6)])
+    org6 = [(float(i) * 0.5, 10.0 + 0.5 * j) for j in range(2) for i in range(3)]
+    r6 = create_space_magnitude_region(CartesianGrid2D.from_origins(numpy.array(org6), dh=0.5), mags_d)
+    boxes6 = {q: (o[0], o[1], o[0] + 0.5, o[1] + 0.5) for q, o in enumerate(org6)}
+    worlds.append(World('lattice3x2/bound-after-construction 4.125:4.75 step 1/8', r6, boxes6, [(-0.3, 10.2), (0.7, 11.5)], mags_d, True,
+                        cells={1: 1, 2: 5}, bins={1: 2, 2: 5}))
     return worlds
 
 
